@@ -29,6 +29,7 @@ use core::fmt::Formatter;
 #[cfg(feature = "serde")]
 use serde::{Deserialize, Serialize};
 
+use crate::ast::value::escape_single_quote_string;
 use crate::ast::Ident;
 #[cfg(feature = "visitor")]
 use sqlparser_derive::{Visit, VisitMut};
@@ -86,13 +87,17 @@ impl fmt::Display for StageParamsObject {
         let endpoint = &self.endpoint.as_ref();
 
         if url.is_some() {
-            write!(f, " URL='{}'", url.unwrap())?;
+            write!(f, " URL='{}'", escape_single_quote_string(url.unwrap()))?;
         }
         if storage_integration.is_some() {
             write!(f, " STORAGE_INTEGRATION={}", storage_integration.unwrap())?;
         }
         if endpoint.is_some() {
-            write!(f, " ENDPOINT='{}'", endpoint.unwrap())?;
+            write!(
+                f,
+                " ENDPOINT='{}'",
+                escape_single_quote_string(endpoint.unwrap())
+            )?;
         }
         if !self.credentials.options.is_empty() {
             write!(f, " CREDENTIALS=({})", self.credentials)?;
@@ -126,7 +131,12 @@ impl fmt::Display for DataLoadingOption {
     fn fmt(&self, f: &mut fmt::Formatter) -> fmt::Result {
         match self.option_type {
             DataLoadingOptionType::STRING => {
-                write!(f, "{}='{}'", self.option_name, self.value)?;
+                write!(
+                    f,
+                    "{}='{}'",
+                    self.option_name,
+                    escape_single_quote_string(&self.value)
+                )?;
             }
             DataLoadingOptionType::ENUM => {
                 // single quote is omitted
